@@ -88,6 +88,11 @@ pub fn compute_error_fits(
     (errors, fits)
 }
 
+/// The filled part of channel `ch` of a frame buffer (`FrameBuf::channel_slice`).
+pub fn framebuf_channel(fb: &crate::source::FrameBuf, ch: usize) -> Vec<i32> {
+    fb.channel_slice(ch).to_vec()
+}
+
 /// Returns `(coefs, shift, precision)` of the quantized parameters.
 pub fn quantize_parameters(coefs: &[f64], precision: usize) -> (Vec<i16>, i8, usize) {
     let q = crate::lpc::quantize_parameters(coefs, precision);
